@@ -77,7 +77,8 @@ inline std::string attribute(std::string const& inv, int op_kind, bool fault_con
 	if(fault_context) return "C09";
 	if(starts("I1-") || starts("I2-") || starts("I3-") || starts("LIFE-") || starts("DEALLOC-") || inv == "P-wrote-trivial" || starts("I5-")) return "C08";
 	if((inv == "P-allocated" || inv == "P-element-events") && (op_kind == O_ASSIGN_MOVE || op_kind == O_CTOR_MOVE || op_kind == O_SWAP)) return "C04";
-	if(inv == "TERMINATE" || inv == "WRONG-EXCEPTION") return "C09";
+	if(inv == "WRONG-EXCEPTION") return owner_property(op_kind);  // (fault-free context) the operation threw although nothing failed: it did not do its job
+	if(inv == "TERMINATE") return "C09";
 	if(inv == "SANITIZER") return "C08";  // a memory error seen by ASan/UBSan in a fault-free context
 	return owner_property(op_kind);
 }
